@@ -55,6 +55,15 @@ func termKind(u *gen.Universe, t gen.Term) string {
 // related returns a term related to t: same family other version, same id other spelling/case,
 // same id other exception. Used to make allowed lists where matching is not one-to-one.
 func relatedTerm(u *gen.Universe, r *gen.Rand, t gen.Term) gen.Term {
+	o := relatedTerm1(u, r, t)
+	if r.Chance(1, 4) {
+		// two steps away: e.g. another version of the family AND another exception
+		o = relatedTerm1(u, r, o)
+	}
+	return o
+}
+
+func relatedTerm1(u *gen.Universe, r *gen.Rand, t gen.Term) gen.Term {
 	if t.Ref {
 		o := t
 		switch r.Intn(3) {
@@ -127,9 +136,18 @@ func randomPool(u *gen.Universe, r *gen.Rand, k int) []gen.Term {
 
 // genRandomTree builds random tree case number idx (independent of the shard count).
 func genRandomTree(c *Ctx, stream string, idx int, maxDNF int64) *TreeCase {
+	return genRandomTreeK(c, stream, idx, maxDNF, 7)
+}
+
+// genRandomTreeK is genRandomTree with up to maxK distinct terms (monitors that enumerate all subsets of the
+// terms keep maxK at 7; those that do not may go higher).
+func genRandomTreeK(c *Ctx, stream string, idx int, maxDNF int64, maxK int) *TreeCase {
 	for attempt := 0; ; attempt++ {
 		r := gen.NewRand(c.Seed, gen.HashStr(stream), uint64(idx), uint64(attempt))
 		k := 1 + r.Intn(7)
+		if maxK > 7 && r.Chance(1, 5) {
+			k = 8 + r.Intn(maxK-7)
+		}
 		shape := r.Intn(gen.NumShapes)
 		nLeaves := k + r.Intn(6)
 		if r.Chance(1, 10) {
